@@ -187,6 +187,7 @@ def correspondence(ctx):
         if all(g["cells"][i]["k"] == "opt" for i in key) and real != mod:
             add_failure(out, "corr", "cells_changed_by differs from model program", rq, mod, real, confirmed=False)
     _corr_ctl(ctx, out)
+    _corr_ctl_failing(ctx, out)
     _corr_rules(ctx, out)
     from . import c07_lfops
 
@@ -294,6 +295,7 @@ def _corr_ctl(ctx, out):
             continue
         for i, (a, b) in enumerate(zip(steps, m["steps"])):
             bump(out, "ctl_op", rq["ops"][i][0])
+            a = {k: v for k, v in a.items() if k != "raised"}
             if a != b:
                 add_failure(out, "corr", "ParameterController state after op differs from model",
                             dict(rq, ops=rq["ops"][: i + 1]), b, a, confirmed=False)
@@ -301,6 +303,43 @@ def _corr_ctl(ctx, out):
         else:
             if any(o[0] == "exit" for o in rq["ops"]):
                 out["nontrivial"].add(("ctl", len(out["nontrivial"])))
+
+
+def _corr_ctl_failing(ctx, out):
+    """as _corr_ctl, but the toy graphs contain definitions whose update() raises ValueError for some
+    argument values, so walks over the dirty definitions are cut short (at an assignment or in the
+    finally: of a block) — vs Model/ControllerFail.lean: values, the DIRTY SET LEFT BEHIND, flag,
+    depth and whether the operation raised, after every op"""
+    from . import c07_ctl as ct
+
+    rng = ctx.subrng("corr-ctl-failing")
+    reqs, reals = [], []
+    for _ in range(ctx.budget(300, 5000)):
+        c = ct.rand_ctl_case(rng, failing=True)
+        try:
+            rq, init, steps = ct.run_real_ctl(c)
+        except ValueError:
+            bump(out, "ctlf_init", "raises")
+            continue
+        reqs.append(("ctlf", rq))
+        reals.append((init, steps))
+    for (_, rq), (init, steps), m in zip(reqs, reals, ctx.driver.batch(reqs)):
+        out["evaluations"] += 1
+        if "error" in m or dict(init, raised=False) != m["init"]:
+            add_failure(out, "corr", "ParameterController (failing definitions): initial state differs from model",
+                        rq, m.get("init", m), init, confirmed=False)
+            continue
+        nfail = 0
+        for i, (a, b) in enumerate(zip(steps, m["steps"])):
+            nfail += a["raised"]
+            bump(out, "ctlf_op", rq["ops"][i][0] + (":raises" if a["raised"] else ""))
+            if a != b:
+                add_failure(out, "corr", "ParameterController state after an op differs from the failing-update model",
+                            dict(rq, ops=rq["ops"][: i + 1]), b, a, confirmed=False)
+                break
+        else:
+            if nfail:
+                out["nontrivial"].add(("ctlf", len(out["nontrivial"])))
 
 
 # --------------------------------------------------------------------------
@@ -388,6 +427,27 @@ def _lf_case(case, out, sample=False):
             inp.update(extra)
         fails.append(dict(what=what, sig=sig, input=inp, expected=expected, got=got))
 
+    state = dict(idx=0)
+
+    def _failed_op_checks(before, kind):
+        """a call that raised must leave the function unchanged and consistent"""
+        obs0, rules0 = before
+        obs1, rules1 = L.observe(lf), L.rules_canon(lf)
+        idx = state["idx"]
+        if (not L.close(obs0["lnL"], obs1["lnL"]) or obs0["nfp"] != obs1["nfp"] or rules0 != rules1
+                or not L.vec_close(obs0["optvec"], obs1["optvec"], 1e-12)):
+            diff = [r for r in rules1 if r not in rules0][:3]
+            fail("an operation that raised changed the function (lnL / nfp / exported rules / optimiser vector)",
+                 f"lf:failed-op-changed:{kind}", idx, dict(lnL=obs0["lnL"], nfp=obs0["nfp"]),
+                 dict(lnL=obs1["lnL"], nfp=obs1["nfp"], new_rules=diff))
+            return
+        with L._Quiet():
+            lf.update_intermediate_values()
+            l2 = float(lf.lnL)
+        if not L.close(obs1["lnL"], l2):
+            fail("after an operation that raised, recomputing every definition changes lnL: the failed call left "
+                 "assignments behind that were not propagated", f"lf:failed-op-stale:{kind}", idx, obs1["lnL"], l2)
+
     def run(op, log, depth):
         k = op[0]
         if k in ("block", "xblock"):
@@ -400,7 +460,50 @@ def _lf_case(case, out, sample=False):
             except RuntimeError:
                 return "propagated"
             return "ok"
+        if k == "failrepair":
+            # op = [failrepair, body, in_block, repair_idx]
+            def body():
+                for o in op[1]:
+                    run(o, log, depth + 1)
+                lf.set_alignment(L.bad_alignment(case, cur_aln))
+
+            try:
+                with L._Quiet():
+                    if op[2]:
+                        with lf.updates_postponed():
+                            body()
+                    else:
+                        body()
+                failed = False
+            except Exception:  # noqa  (expected: the alignment cannot be converted)
+                failed = True
+            bump(out, "lf_failrepair", ("block" if op[2] else "direct") + (":raised" if failed else ":accepted"))
+            return run(["aln", op[3]], log, depth)  # the caller repairs the alignment, nothing else
+        if k == "latefail":
+            # op = [latefail, par, edge, upper_side]: make the parameter independent per edge, give ONE edge
+            # narrower bounds, then a rule for all edges that violates the bounds of that edge only
+            par, edge, upper_side = op[1], op[2], op[3]
+            base = 0.1 if par == "length" else 1.0
+            r1 = run(["rule", par, {"is_independent": True, "init": base}], log, depth)
+            if upper_side:
+                r2 = run(["rule", par, {"edge": edge, "upper": base * 5, "init": base}], log, depth)
+                bad_kw = {"is_independent": True, "lower": base * 8}
+            else:
+                r2 = run(["rule", par, {"edge": edge, "lower": base / 5, "init": base}], log, depth)
+                bad_kw = {"is_independent": True, "upper": base / 8}
+            if r1 != "ok" or r2 != "ok":
+                return r1 if r1 != "ok" else r2
+            before = (L.observe(lf), L.rules_canon(lf))
+            r3 = L.apply_op(lf, ["rule", par, bad_kw], log)
+            executed.append(dict(op=["bad", "latefail"], res=r3))
+            bump(out, "lf_latefail", "raised" if r3 != "ok" else "accepted")
+            if r3 != "ok":
+                _failed_op_checks(before, "latefail")
+            return "ok"
+        before = (L.observe(lf), L.rules_canon(lf)) if (k == "bad" and depth == 0) else None
         r = L.apply_op(lf, op, log)
+        if before is not None and r != "ok":
+            _failed_op_checks(before, "bad:" + str(op[1]))
         ent = dict(op=op, res=r)
         if r == "ok" and k in ("opt", "calc"):
             with L._Quiet():
@@ -410,6 +513,7 @@ def _lf_case(case, out, sample=False):
 
     for idx, op in enumerate(case["ops"]):
         log = []
+        state["idx"] = idx
         res = run(op, log, 0)
         bump(out, "lf_op", op[0])
         bump(out, "lf_op_result", res if res in ("ok", "propagated") else "raises")
@@ -545,9 +649,32 @@ def _add_xblocks(rng, ops):
 def _spec_lf(ctx, out, rng, n_cases, n_ops, opt_budget):
     from . import c07_lf as L
 
-    for ci in range(n_cases):
-        case = L.rand_case(rng, n_ops, opt_budget)
-        case["ops"] = _add_xblocks(rng, case["ops"])
+    # fixed cases first: operations that FAIL (inside / outside a postponed block) followed by a repair
+    # and further changes; a multi-scope rule failing validation on one scope only
+    fixed = [
+        dict(model="HKY85", taxa=0, aln0=0, ops=[
+            ["failrepair", [["rule", "kappa", {"init": 4.0}], ["rule", "length", {"edge": "Cat", "init": 0.3}]], True, 1],
+            ["rule", "length", {"edge": "Human", "init": 0.2}]]),
+        dict(model="GTR", taxa=2, aln0=1, ops=[
+            ["rule", "A/G", {"init": 2.5}],
+            ["failrepair", [["rule", "A/G", {"init": 0.6}], ["mprobs", {"T": 0.1, "C": 0.2, "A": 0.3, "G": 0.4}]], False, 2],
+            ["xblock", [["rule", "C/T", {"init": 3.0}], ["bad", "unknown_edge"]]],
+            ["rule", "A/C", {"edges": ["Cat", "Dog"], "is_independent": False, "init": 1.7}]]),
+        dict(model="HKY85", taxa=1, aln0=0, ops=[
+            ["latefail", "kappa", "Human", True], ["latefail", "kappa", "edge.1", False],
+            ["rule", "kappa", {"edge": "Cow", "init": 2.0}]]),
+        dict(model="F81", taxa=0, aln0=2, ops=[
+            ["latefail", "length", "Rat", True], ["bad", "unknown_par"], ["latefail", "length", "Cat", False]]),
+        dict(model="TN93", taxa=0, aln0=3, ops=[
+            ["block", [["rule", "kappa_y", {"init": 2.0}], ["failrepair", [["rule", "kappa_r", {"init": 3.0}]], True, 0]]],
+            ["rule", "kappa_y", {"is_constant": True, "value": 1.3}]]),
+    ]
+    for ci in range(len(fixed) + n_cases):
+        if ci < len(fixed):
+            case = fixed[ci]
+        else:
+            case = L.rand_case(rng, n_ops, opt_budget)
+            case["ops"] = _add_xblocks(rng, case["ops"])
         out["evaluations"] += 1
         bump(out, "lf_model", case["model"])
         try:
@@ -564,35 +691,54 @@ def _spec_lf(ctx, out, rng, n_cases, n_ops, opt_budget):
 
 def _spec_ctl(ctx, out, rng, n):
     """REAL ParameterController vs recomputing every definition from the last assigned settings,
-    whenever no updates_postponed block is open"""
+    whenever no updates_postponed block is open and the last operation completed. Half of the
+    graphs contain definitions whose update() raises for some argument values, so that walks over
+    the dirty definitions fail part way (at an assignment or at the end of a block) and are later
+    completed by a repairing assignment: no dirty mark may be lost."""
     from . import c07_ctl as ct
 
-    for _ in range(n):
-        c = ct.rand_ctl_case(rng)
-        rq, init, steps = ct.run_real_ctl(c)
+    for ci in range(n):
+        failing = ci % 2 == 1
+        for _ in range(20):
+            c = ct.rand_ctl_case(rng, failing=failing)
+            try:
+                rq, init, steps = ct.run_real_ctl(c)
+                break
+            except ValueError:  # the defaults already hit a failing definition
+                continue
+        else:
+            continue
         out["evaluations"] += 1
-        settings = list(rq["settings"])
         f = _ctl_check(rq, init, steps)
+        for s in steps:
+            if s.get("raised"):
+                bump(out, "ctl_failing_walk", "at-depth-%d" % min(s["depth"], 2))
         if f:
             add_failure(out, "spec", f["what"], f["input"], f["expected"], f["got"], sig=f["sig"])
         else:
-            out["nontrivial"].add(("spec-ctl", json.dumps(rq["ops"][:4])))
+            out["nontrivial"].add(("spec-ctl", failing, json.dumps(rq["ops"][:4])))
 
 
 def _ctl_check(rq, init, steps):
     from . import c07_ctl as ct
 
     settings = list(rq["settings"])
+    failed_before = False
     for i, (op, s) in enumerate(zip(rq["ops"], steps)):
         if op[0] == "assign":
             settings[op[1]] = op[2]
+        if s.get("raised"):
+            failed_before = True
+            continue  # a failed walk: values are half updated, the dirty set must remember the rest
         if s["depth"] == 0:
             want = ct.fresh_values(rq, settings)
             if s["values"] != want or s["suspended"]:
+                tag = ("suspended" if s["suspended"] else "not-suspended") + (":after-failed-update" if failed_before else "")
                 return dict(
                     what="ParameterController values differ from recomputing every definition from the current "
-                         "settings although no updates_postponed block is open",
-                    sig="ctl:stale-values:" + ("suspended" if s["suspended"] else "not-suspended"),
+                         "settings although no updates_postponed block is open and the operation completed"
+                         + (" (an earlier update() had failed part way)" if failed_before else ""),
+                    sig="ctl:stale-values:" + tag,
                     input=dict(kind="ctl", defns=rq["defns"], settings=rq["settings"], ops=rq["ops"][: i + 1]),
                     expected=want, got=s["values"])
     return None
@@ -779,7 +925,8 @@ def _ctl_replay(inp):
         if d["k"] == "leaf":
             nodes.append(dict(k="leaf", name=f"n{i:03d}", v=inp["settings"][i]))
         else:
-            nodes.append(dict(k="derived", name=f"n{i:03d}", args=d["args"], salt=d["salt"], mult=d["mult"]))
+            nodes.append(dict(k="derived", name=f"n{i:03d}", args=d["args"], salt=d["salt"], mult=d["mult"],
+                              rmod=d.get("rmod", 0), rres=d.get("rres", 0)))
     rq, init, steps = ct.run_real_ctl(dict(nodes=nodes, ops=inp["ops"]))
     return rq, init, steps
 
